@@ -9,6 +9,7 @@ import (
 	"fmt"
 	"io"
 	"strings"
+	"testing/iotest"
 
 	"filippo.io/age"
 	"filippo.io/age/armor"
@@ -284,6 +285,47 @@ func checkC12(c *Ctx) {
 			}
 		}
 	}
+	// a valid file whose header has a very long line (a foreign stanza with a 5000-byte argument / 1500 arguments):
+	// the result must not depend on how, or whether, the caller buffers the source
+	for _, shape := range []string{"one-long-argument", "many-arguments"} {
+		st := &age.Stanza{Type: "foreign", Body: c.rng.bytes(10)}
+		if shape == "one-long-argument" {
+			st.Args = []string{strings.Repeat("a", 5000)}
+		} else {
+			for k := 0; k < 1500; k++ {
+				st.Args = append(st.Args, "xy")
+			}
+		}
+		plain := c.rng.bytes(300)
+		sc := &scenario{parties: []*party{stubParty([]*age.Stanza{st}, nil, false, false), pty}, plain: plain, tape: c.rng.bytes(100)}
+		file, err, _, _ := encryptImpl(sc)
+		if err != nil {
+			c.Oracle("long-header-line-encrypts", false, "long-line-encrypt", shape, err.Error())
+			continue
+		}
+		for _, mode := range []string{"bytes.Reader", "one byte at a time", "bufio 4096", "bufio 64K", "bufio 16"} {
+			var src io.Reader = bytes.NewReader(file)
+			switch mode {
+			case "one byte at a time":
+				src = iotest.OneByteReader(src)
+			case "bufio 4096":
+				src = bufio.NewReader(src)
+			case "bufio 64K":
+				src = bufio.NewReaderSize(src, 64<<10)
+			case "bufio 16":
+				src = bufio.NewReaderSize(src, 16)
+			}
+			r, derr := age.Decrypt(src, pty.id)
+			var got []byte
+			if derr == nil {
+				got, derr = io.ReadAll(r)
+			}
+			c.Oracle("result-independent-of-source-buffering", derr == nil && bytes.Equal(got, plain), "buffering-dependence", map[string]string{"header": shape, "source": mode},
+				fmt.Sprintf("a valid file with a long header line read through %s: %d of %d bytes, err %v", mode, len(got), len(plain), derr))
+			c.count("long-header-line")
+		}
+		c.note("longline:"+shape, true)
+	}
 	// io.Copy into the encrypting writer (what cmd/age does; would use a ReaderFrom fast path if one existed)
 	for _, n := range []int{0, 100, chunkSize, 2 * chunkSize, chunkSize + 1} {
 		plain := c.rng.bytes(n)
@@ -375,6 +417,8 @@ func checkC12(c *Ctx) {
 			t2 := append([]byte{}, f...)
 			t2[len(t2)-chunkSize-40] ^= 1
 			files = append(files, tf{fmt.Sprintf("flip-middle-chunk-%d", n), t2, sc.plain})
+			// cut EXACTLY after a full chunk: the last bytes of the source are the end of a complete chunk
+			files = append(files, tf{fmt.Sprintf("trunc-at-chunk-boundary-%d", n), f[:len(f)-(chunkSize+16)], sc.plain})
 		}
 		if n == chunkSize || n == 100 {
 			files = append(files, tf{fmt.Sprintf("trailing1-%d", n), append(append([]byte{}, f...), 'x'), sc.plain})
@@ -382,9 +426,14 @@ func checkC12(c *Ctx) {
 			t[len(t)-5] ^= 1
 			files = append(files, tf{fmt.Sprintf("flip-%d", n), t, sc.plain})
 			files = append(files, tf{fmt.Sprintf("trunc-%d", n), f[:len(f)-3], sc.plain})
+			if n == chunkSize {
+				files = append(files, tf{"trunc-after-nonce", f[:len(f)-(chunkSize+16)], sc.plain})
+			}
 		}
 	}
 	for _, f := range files {
+		// what ONE file yields must be the same under every delivery (released bytes and how the stream ends)
+		fileRef := ""
 		for schI, pieces := range schedules(c.rng, len(f.file), c.thorough()) {
 			pieces = repeatPiece(pieces, len(f.file))
 			for _, eofdata := range []bool{false, true} {
@@ -401,6 +450,10 @@ func checkC12(c *Ctx) {
 					model := c.modelDecryptSrc(f.file, pieces, eofdata, -1, []string{pty.isx}, caps, dflt)
 					in := map[string]interface{}{"file": f.name, "schedule": schI, "eof_with_data": eofdata, "bufio": via, "caps": caps, "dflt": dflt}
 					c.Compare("Decrypt+Read over a scheduled source~Age.decrypt_src", in, impl, model)
+					if fileRef == "" {
+						fileRef = impl
+					}
+					c.Oracle("result-independent-of-delivery", impl == fileRef, "read-schedule-dependence", in, "the same file gives "+clipN(impl, 70)+" under this delivery but "+clipN(fileRef, 70)+" under the first one tried")
 					if f.name[:5] == "valid" {
 						c.Oracle("plaintext-independent-of-delivery", bytes.Equal(out, f.plain) && oc == ":eof", "read-schedule", in, "a valid file did not decrypt under this delivery schedule: "+oc)
 					} else {
